@@ -888,7 +888,59 @@ def compare(case):
     out["max_err"] = err
     if kind is not None:
         out.update(status="fail", fail=kind, offender=nm, detail=detail)
+        if fwd and not case.get("_nearby"):
+            # Two functions that agree on a neighbourhood have the same gradient.  So a gradient mismatch with an agreeing
+            # forward value is a defect of the backward code only if the forward values ALSO agree at generic nearby points;
+            # if they differ there, the entry point computes another function that merely coincides at this (special, e.g.
+            # zero off-diagonal) input: a forward defect, not C07's.
+            near = forward_agrees_nearby(case, tol)
+            if near is False:
+                out["forward_agrees"] = False
+                out["forward_differs_nearby"] = True
     return out, leaves, opr, ref
+
+
+def perturbed_expr(e, seed, eps=0.25):
+    """a copy of the expression with every float leaf moved by eps * (seeded noise), keeping what the leaf must satisfy:
+    symmetric where it enters symmetrically, zero outside the triangle of a triangular factor"""
+    import copy as _copy
+    e2 = reshare(_copy.deepcopy(e))
+    lv = Leaves(e2)
+    g = torch.Generator().manual_seed(int(seed) % (2 ** 31) + 991)
+    for r in lv.recs:
+        spec = r["spec"]
+        x = torch.tensor(spec["data"], dtype=F64).reshape(spec["shape"])
+        nz = torch.rand(x.shape, generator=g, dtype=F64) * 2 - 1
+        if r["sym"] and x.dim() >= 2 and x.shape[-1] == x.shape[-2]:
+            nz = (nz + nz.mT) / 2
+        if r["tri"]:
+            nz = torch.triu(nz) if r["tri"] == "upper" else torch.tril(nz)
+        spec["data"] = [float(v) for v in (x + eps * nz).reshape(-1).tolist()]
+    return e2
+
+
+def forward_agrees_nearby(case, tol, points=2):
+    """True / False / None (inconclusive: a side raises at the nearby point)"""
+    fn, me, chol0, seed = case["fn"], bool(case["me"]), bool(case["chol0"]), int(case["seed"])
+    verdicts = []
+    for j in range(points):
+        try:
+            e2 = perturbed_expr(case["expr"], seed + 17 * j)
+            lv = Leaves(e2, case.get("rg_mask"))
+            a = prepare_args(case["fn_args"], case.get("rhs_rg", True))
+            ref = run_side(lv, fn, a, False, me, chol0, seed, precond=bool(case.get("precond")))
+            if ref["err"] is not None:
+                continue
+            opr = run_side(lv, fn, a, True, me, chol0, seed, weights=ref["W"], precond=bool(case.get("precond")))
+            if opr["outs"] is None:
+                continue
+            ok = all(close(o, r, max(tol, 1e-6))[0] for o, r in zip(opr["outs"], ref["outs"]))
+            verdicts.append(ok)
+        except Exception:  # noqa
+            continue
+    if not verdicts:
+        return None
+    return all(verdicts)
 
 
 def memeff_compare(names, g_a, g_b):
